@@ -1,10 +1,366 @@
 import TonicModel.Model.Status
 import TonicModel.Spec.Status
+import TonicModel.Lemmas.Status
+/-
+C04 — Status survives the header encoding; reading any headers is total.
+Property theorems only; helper lemmas live in `Lemmas/Status.lean` and `Basic/*`.
+`Variant.fixed` is the tree with fixes/fix-C04-*.patch applied (what the correspondence run
+drives); `Variant.orig` is the pinned tree, for which the `_fails` witnesses are proved.
+-/
 namespace C04
 open Status
 
-/-- Every code's header value parses back to the code. -/
-theorem C04_code_roundtrip (c : Code) : Code.fromBytes c.headerValue = c := by
+/-! ## writing -/
+
+/-- Writing a status into headers never fails, whatever the code, message bytes, details and
+metadata: `add_header` returns `Ok` (its `Err` branch — a value that is not a legal header
+value — is unreachable). -/
+theorem C04_write_never_fails (st : St) (h0 : HMap) : ∃ h, addHeader st h0 = .ok h :=
+  ⟨wire st h0, addHeader_eq st h0⟩
+
+/-- The header block written for a status, name by name: `grpc-status` is the code's decimal,
+`grpc-message` is present iff the message is non-empty and is its percent-encoding,
+`grpc-status-details-bin` (for non-empty details) is the unpadded base64 of the details, and
+every other name carries exactly the metadata's values for that name, in order, unless the name
+is reserved, in which case nothing is written. -/
+theorem C04_wire_form (st : St) (h : HMap) (hw : toHeaderMap st = .ok h) (k : Bytes) :
+    HMap.getAll k h =
+      if k = GRPC_STATUS then [st.code.headerValue]
+      else if k = GRPC_MESSAGE then (if st.message = [] then [] else [Pct.encode st.message])
+      else if k = GRPC_STATUS_DETAILS then
+        (if st.details = [] then HMap.getAll k st.metadata else [B64.encode false st.details])
+      else if k ∈ reservedHeaders then [] else HMap.getAll k st.metadata := by
+  rw [toHeaderMap, addHeader_eq] at hw
+  cases hw
+  exact getAll_wire st k
+
+/-- Every header value produced is a legal HTTP header value (HTAB, SP–~, obs-text), given that
+the metadata's own values are (which `HeaderValue` guarantees); the `grpc-message` value is
+moreover a spec-conformant `Percent-Encoded` string of visible ASCII. -/
+theorem C04_values_legal (st : St) (h : HMap) (hw : toHeaderMap st = .ok h)
+    (hmd : ∀ e ∈ st.metadata, Spec.Status.legalHeaderValue e.2 = true) :
+    (∀ e ∈ h, Spec.Status.legalHeaderValue e.2 = true) ∧
+    (∀ v ∈ HMap.getAll GRPC_MESSAGE h, ∀ b ∈ v, 33 ≤ b.toNat ∧ b.toNat ≤ 126) := by
+  constructor
+  · intro e he
+    have hv : e.2 ∈ HMap.getAll e.1 h := HMap.mem_getAll_of_mem (k := e.1) (v := e.2) (by simpa using he)
+    rw [C04_wire_form st h hw e.1] at hv
+    have legal_of : ∀ w : Bytes, HMap.legalValue w = true → Spec.Status.legalHeaderValue w = true := by
+      intro w hw'
+      simp only [HMap.legalValue, Spec.Status.legalHeaderValue, List.all_eq_true] at hw' ⊢
+      intro b hb
+      have := hw' b hb
+      simp only [HMap.legalValueByte, Spec.Status.legalHeaderByte, Bool.or_eq_true, Bool.and_eq_true,
+        decide_eq_true_eq, bne_iff_ne, beq_iff_eq] at this ⊢
+      omega
+    have from_md : ∀ k, e.2 ∈ HMap.getAll k st.metadata → Spec.Status.legalHeaderValue e.2 = true :=
+      fun k hk => hmd (k, e.2) (HMap.mem_of_mem_getAll hk)
+    split at hv
+    · have : e.2 = st.code.headerValue := by simpa using hv
+      rw [this]; cases st.code <;> decide
+    · split at hv
+      · split at hv
+        · cases hv
+        · have : e.2 = Pct.encode st.message := by simpa using hv
+          rw [this]; exact legal_of _ (pct_encode_legal _)
+      · split at hv
+        · split at hv
+          · exact from_md _ hv
+          · have : e.2 = B64.encode false st.details := by simpa using hv
+            rw [this]; exact legal_of _ (b64_encode_legal _ _)
+        · split at hv
+          · cases hv
+          · exact from_md _ hv
+  · intro v hv b hb
+    rw [C04_wire_form st h hw GRPC_MESSAGE] at hv
+    have n := names_ne
+    simp only [n.1.symm, if_false, if_true] at hv
+    split at hv
+    · cases hv
+    · have : v = Pct.encode st.message := by simpa using hv
+      subst this
+      exact Pct.encode_visible _ b hb
+
+/-! ## round trip -/
+
+/-- the three status headers removed — what `from_header_map` keeps as metadata -/
+def stripStatus (h : HMap) : HMap :=
+  HMap.remove GRPC_STATUS_DETAILS (HMap.remove GRPC_MESSAGE (HMap.remove GRPC_STATUS h))
+
+private theorem getAll_stripStatus (k : Bytes) (h : HMap) :
+    HMap.getAll k (stripStatus h) =
+      if k = GRPC_STATUS ∨ k = GRPC_MESSAGE ∨ k = GRPC_STATUS_DETAILS then [] else HMap.getAll k h := by
+  unfold stripStatus
+  by_cases k3 : k = GRPC_STATUS_DETAILS
+  · subst k3; simp [HMap.getAll_remove_self]
+  · rw [HMap.getAll_remove_ne _ _ _ k3]
+    by_cases k2 : k = GRPC_MESSAGE
+    · subst k2; simp [HMap.getAll_remove_self]
+    · rw [HMap.getAll_remove_ne _ _ _ k2]
+      by_cases k1 : k = GRPC_STATUS
+      · subst k1; simp [HMap.getAll_remove_self]
+      · rw [HMap.getAll_remove_ne _ _ _ k1]; simp [k1, k2, k3]
+
+/-- **Round trip.** For every status — any of the 17 codes, any valid-UTF-8 message (controls,
+`%`, non-ASCII, empty), any details byte string, any metadata whose entries are custom (the
+metadata does not itself carry a `grpc-status-details-bin` entry while the details are empty) —
+writing it to a header block and reading that block back yields exactly the same code, message
+and details. -/
+theorem C04_status_roundtrip (st : St) (hutf : Utf8.valid st.message = true)
+    (hcustom : st.details ≠ [] ∨ HMap.getAll GRPC_STATUS_DETAILS st.metadata = []) :
+    ∃ h, toHeaderMap st = .ok h ∧
+      fromHeaderMap .fixed h = some (.status
+        { code := st.code, message := st.message, details := st.details, metadata := stripStatus h }) := by
+  obtain ⟨n1, n2, n3, n4, n5, n6⟩ := names_ne
+  have hw : toHeaderMap st = .ok (wire st []) := addHeader_eq st []
+  have g := C04_wire_form st _ hw
+  have gS := g GRPC_STATUS
+  have gM := g GRPC_MESSAGE
+  have gD := g GRPC_STATUS_DETAILS
+  simp only [if_true] at gS
+  simp only [n1.symm, if_false, if_true] at gM
+  simp only [n2.symm, n3.symm, if_false, if_true] at gD
+  have hmsg : decodeMessage (wire st []) = .ok st.message := by
+    unfold decodeMessage HMap.get
+    rw [gM]
+    by_cases hm : st.message = []
+    · simp [hm]
+    · have hv : Utf8.validate st.message = none := by simpa [Utf8.valid] using hutf
+      simp [hm, Pct.decode_encode, hv]
+  have hcode : Code.fromBytes st.code.headerValue = st.code := by cases st.code <;> decide
+  refine ⟨_, hw, ?_⟩
+  unfold fromHeaderMap stripStatus
+  by_cases hd : st.details = []
+  · have hg : HMap.getAll GRPC_STATUS_DETAILS st.metadata = [] := by
+      rcases hcustom with h | h
+      · exact absurd hd h
+      · exact h
+    simp only [HMap.get, gS, gD, hd, if_true, hg, List.head?_nil, List.head?_cons, hmsg, hcode]
+  · simp only [HMap.get, gS, gD, hd, if_false, List.head?_cons, B64.decode_encode, hmsg, hcode]
+
+/-- **Round trip, metadata.** With no side condition at all: the block written for a status is
+always read back as a status (never absent, never a panic), whose metadata has, for every
+name that is neither reserved nor one of the status headers, exactly the original values in
+the original order, and nothing under the reserved and status names. -/
+theorem C04_metadata_roundtrip (st : St) :
+    ∃ h st', toHeaderMap st = .ok h ∧ fromHeaderMap .fixed h = some (.status st') ∧
+      ∀ k, HMap.getAll k st'.metadata =
+        if k ∈ reservedHeaders ∨ k = GRPC_STATUS_DETAILS then [] else HMap.getAll k st.metadata := by
+  obtain ⟨n1, n2, n3, n4, n5, n6⟩ := names_ne
+  have hw : toHeaderMap st = .ok (wire st []) := addHeader_eq st []
+  have g := C04_wire_form st _ hw
+  have gS := g GRPC_STATUS
+  simp only [if_true] at gS
+  have hget : HMap.get GRPC_STATUS (wire st []) = some st.code.headerValue := by
+    simp [HMap.get, gS]
+  have hmeta : ∀ k, HMap.getAll k (stripStatus (wire st [])) =
+      if k ∈ reservedHeaders ∨ k = GRPC_STATUS_DETAILS then [] else HMap.getAll k st.metadata := by
+    intro k
+    rw [getAll_stripStatus, g k]
+    by_cases k1 : k = GRPC_STATUS
+    · subst k1; simp [n5]
+    · by_cases k2 : k = GRPC_MESSAGE
+      · subst k2; simp [n6]
+      · by_cases k3 : k = GRPC_STATUS_DETAILS
+        · subst k3; simp
+        · simp [k1, k2, k3]
+  obtain ⟨st', h1, h2⟩ : ∃ st', fromHeaderMap .fixed (wire st []) = some (.status st') ∧
+      st'.metadata = stripStatus (wire st []) := by
+    unfold fromHeaderMap stripStatus
+    simp only [hget]
+    split <;> (refine ⟨_, rfl, ?_⟩; rfl)
+  exact ⟨_, st', hw, h1, fun k => by rw [h2]; exact hmeta k⟩
+
+/-! ## reading arbitrary peer headers -/
+
+/-- **Totality.** Reading a status from *any* header block never panics (repaired tree). -/
+theorem C04_read_total (h : HMap) : fromHeaderMap .fixed h ≠ some .panic := by
+  unfold fromHeaderMap
+  split
+  · simp
+  · simp only []
+    split <;> simp
+
+/-- On the pinned tree as found the reader is not total: a `grpc-status-details-bin` value that
+is not base64 panics (`expect`).  Witness: `grpc-status: 3`, `grpc-status-details-bin: !!!`. -/
+theorem C04_read_total_unfixed_fails : ¬ ∀ h, fromHeaderMap .orig h ≠ some .panic := by
+  intro hall
+  exact hall [(GRPC_STATUS, [51]), (GRPC_STATUS_DETAILS, [33, 33, 33])] (by decide)
+
+/-- … and that is the only way it panics: on the pinned tree every block whose details header
+(if any) is valid base64 is read without panic, and both trees agree on it. -/
+theorem C04_read_total_partial (h : HMap)
+    (hd : ∀ dv, HMap.get GRPC_STATUS_DETAILS h = some dv → (B64.decode dv).isSome = true) :
+    fromHeaderMap .orig h ≠ some .panic ∧ fromHeaderMap .orig h = fromHeaderMap .fixed h := by
+  unfold fromHeaderMap
+  split
+  · simp
+  · simp only []
+    cases hg : HMap.get GRPC_STATUS_DETAILS h with
+    | none => simp
+    | some dv =>
+      have := hd dv hg
+      cases hdec : B64.decode dv with
+      | none => rw [hdec] at this; cases this
+      | some d => simp [hdec]
+
+/-- **The reader computes the spec's reading**, for every header block: no status iff there is
+no `grpc-status`; otherwise a status whose metadata is the block minus the three status headers
+and whose fields are: the code the spec's table gives (UNKNOWN for every unknown or malformed
+code string), the percent-decoded message and the base64-decoded details when both are
+decodable; and an error status (UNKNOWN, never OK) as soon as one of them is not. -/
+theorem C04_read_is_spec (h : HMap) :
+    match Spec.Status.read h, fromHeaderMap .fixed h with
+    | none, none => True
+    | some r, some (.status st) =>
+        st.metadata = stripStatus h ∧
+        (∀ m d, r.message = some m → r.details = some d →
+          st.code.num = r.code ∧ st.message = m ∧ st.details = d) ∧
+        ((r.message = none ∨ r.details = none) → st.code = .unknown)
+    | _, _ => False := by
+  have e1 : Spec.Status.statusName = GRPC_STATUS := rfl
+  have e2 : Spec.Status.messageName = GRPC_MESSAGE := rfl
+  have e3 : Spec.Status.detailsName = GRPC_STATUS_DETAILS := rfl
+  unfold Spec.Status.read fromHeaderMap decodeMessage stripStatus
+  rw [e1, e2, e3]
+  cases hs : HMap.get GRPC_STATUS h with
+  | none => simp
+  | some cv =>
+    cases hm : HMap.get GRPC_MESSAGE h with
+    | none =>
+      cases hd : HMap.get GRPC_STATUS_DETAILS h with
+      | none => simp [fromBytes_is_spec]
+      | some dv =>
+        cases hdec : B64.decode dv with
+        | none => simp [hdec]
+        | some d => simp [hdec, fromBytes_is_spec]
+    | some mv =>
+      cases hv : Utf8.validate (Pct.decode mv) with
+      | none =>
+        have hvalid : Utf8.valid (Pct.decode mv) = true := by simp [Utf8.valid, hv]
+        cases hd : HMap.get GRPC_STATUS_DETAILS h with
+        | none => simp [fromBytes_is_spec, hvalid, hv]
+        | some dv =>
+          cases hdec : B64.decode dv with
+          | none => simp [hdec, hv]
+          | some d => simp [hdec, hv, fromBytes_is_spec, hvalid]
+      | some e =>
+        have hvalid : Utf8.valid (Pct.decode mv) = false := by simp [Utf8.valid, hv]
+        cases hd : HMap.get GRPC_STATUS_DETAILS h with
+        | none => simp [hvalid, hv]
+        | some dv =>
+          cases hdec : B64.decode dv with
+          | none => simp [hdec, hv]
+          | some d => simp [hdec, hv, hvalid]
+
+/-- The `grpc-status` value is parsed by the exact table: each code's decimal gives that code
+and every other byte string (empty, sign, leading zero, space, three digits, 17…) gives UNKNOWN. -/
+theorem C04_code_parse_is_spec (bs : Bytes) : (Code.fromBytes bs).num = Spec.Status.readCode bs :=
+  fromBytes_is_spec bs
+
+/-- Every code's header value is its decimal number and parses back to the code. -/
+theorem C04_code_roundtrip (c : Code) :
+    c.headerValue = decimal c.num ∧ Code.fromBytes c.headerValue = c ∧ Code.ofInt (Int.ofNat c.num) = c := by
   cases c <;> decide
+
+/-! ## classification when no grpc-status is available -/
+
+/-- HTTP status table, all status codes: the model's table is the spec's table (and 200 is the
+one status that ends the stream without an error). -/
+theorem C04_http_table (http : Nat) :
+    (http = 200 → httpToCode http = none) ∧
+    (http ≠ 200 → ∃ c, httpToCode http = some c ∧ c.num = Spec.Status.httpToCode http) := by
+  unfold httpToCode Spec.Status.httpToCode
+  constructor
+  · intro h; subst h; decide
+  · intro h
+    repeat' split
+    all_goals first
+      | exact ⟨_, rfl, by decide⟩
+      | omega
+      | (simp_all; done)
+      | (refine ⟨_, rfl, ?_⟩; simp_all [Code.num, Spec.Status.UNKNOWN]; done)
+
+/-- With no trailers, or trailers without `grpc-status`, a non-200 response is an error whose
+code is the spec's HTTP mapping; with a `grpc-status` in the trailers the trailers decide
+(OK ends the stream cleanly, anything else is that error), whatever the HTTP status. -/
+theorem C04_infer (trailers : Option HMap) (http : Nat) :
+    ((trailers.bind Spec.Status.read = none) → http ≠ 200 →
+      ∃ st, inferGrpcStatus .fixed trailers http = .err st ∧ st.code.num = Spec.Status.httpToCode http) ∧
+    (∀ t st, trailers = some t → fromHeaderMap .fixed t = some (.status st) →
+      inferGrpcStatus .fixed trailers http = if st.code = .ok then .done else .err st) := by
+  constructor
+  · intro hnone hne
+    have hft : ∀ t, trailers = some t → fromHeaderMap .fixed t = none := by
+      intro t ht
+      subst ht
+      have hr : Spec.Status.read t = none := by simpa using hnone
+      have := C04_read_is_spec t
+      rw [hr] at this
+      cases hf : fromHeaderMap .fixed t with
+      | none => rfl
+      | some o => rw [hf] at this; cases o <;> simp at this
+    obtain ⟨c, hc, hnum⟩ := (C04_http_table http).2 hne
+    refine ⟨{ code := c, message := inferMessage http, details := [], metadata := [] }, ?_, hnum⟩
+    unfold inferGrpcStatus
+    cases trailers with
+    | none => simp only [hc]
+    | some t => simp only [hft t rfl, hc]
+  · intro t st ht hst
+    subst ht
+    unfold inferGrpcStatus
+    simp only [hst]
+
+/-- HTTP/2 error-code table (repaired tree): every error code for which gRPC's table gives a
+mapping — CANCEL, REFUSED_STREAM, ENHANCE_YOUR_CALM, INADEQUATE_SECURITY and the eight
+protocol-level codes — is mapped to exactly that code; for all error codes, known or unknown. -/
+theorem C04_h2_table (reason c : Nat) (h : Spec.Status.h2ToCode reason = some c) :
+    (codeFromH2 .fixed reason).num = c := by
+  unfold Spec.Status.h2ToCode at h
+  unfold codeFromH2
+  repeat' split at h
+  all_goals first
+    | (cases h; decide)
+    | cases h
+
+/-- On the pinned tree as found the table has one wrong row: FRAME_SIZE_ERROR (6), a
+protocol-level code, gives UNKNOWN instead of INTERNAL. -/
+theorem C04_h2_table_unfixed_fails :
+    ¬ ∀ reason c, Spec.Status.h2ToCode reason = some c → (codeFromH2 .orig reason).num = c := by
+  intro hall
+  have := hall 6 13 (by decide)
+  revert this; decide
+
+/-- … and it is the only wrong row. -/
+theorem C04_h2_table_partial (reason c : Nat) (hne : reason ≠ 6)
+    (h : Spec.Status.h2ToCode reason = some c) : (codeFromH2 .orig reason).num = c := by
+  rw [← C04_h2_table reason c h]
+  unfold codeFromH2
+  simp [hne]
+
+/-- A status is reset with CANCEL exactly when it is CANCELLED, and the peer maps that reset
+back to CANCELLED. -/
+theorem C04_cancel_reset (c : Code) :
+    (toH2 c = 8 ↔ c = .cancelled) ∧ codeFromH2 .fixed (toH2 .cancelled) = .cancelled := by
+  cases c <;> decide
+
+/-! ## non-vacuity -/
+
+/- a status with controls, `%`, non-ASCII text, details of length 2 (mod 3) and repeated and
+reserved metadata satisfies the round-trip hypotheses … -/
+private def exSt : St :=
+  { code := .dataLoss, message := [37, 10, 195, 169, 32], details := [0, 255],
+    metadata := [(HMap.name "x-a", [49]), (HMap.name "te", [120]), (HMap.name "x-a", [50])] }
+
+example : Utf8.valid exSt.message = true ∧ (exSt.details ≠ [] ∨ HMap.getAll GRPC_STATUS_DETAILS exSt.metadata = []) := by
+  decide
+/- … and its wire form is what the theorems say -/
+example : (toHeaderMap exSt).toOption = some
+    [(HMap.name "x-a", [49]), (HMap.name "x-a", [50]), (GRPC_STATUS, [49, 53]),
+     (GRPC_MESSAGE, HMap.name "%25%0A%C3%A9%20"), (GRPC_STATUS_DETAILS, HMap.name "AP8")] := by decide
+/- malformed inputs exist on both sides of `C04_read_is_spec` -/
+example : Spec.Status.read [(GRPC_STATUS, HMap.name "016")] = some { code := 2, message := some [], details := some [] } := by decide
+example : (Spec.Status.read [(GRPC_STATUS, [48]), (GRPC_STATUS_DETAILS, HMap.name "QR")]).map (·.details) = some none := by decide
+example : Spec.Status.h2ToCode 6 = some 13 ∧ Spec.Status.h2ToCode 5 = none ∧ Spec.Status.httpToCode 429 = 14 := by decide
 
 end C04
